@@ -70,7 +70,7 @@ reg('Dema', cfg=_dema_cfg, default=([5, 35], []),
     idle=lambda ns: ns[1] + (ns[3] if len(ns) > 3 else ns[1]) - 2,
     inds=[('Dema', lambda ns: [ns[0], ns[2] if len(ns) > 3 else ns[0]], 'c'), ('Dema', lambda ns: [ns[1], ns[3] if len(ns) > 3 else ns[1]], 'c')],
     rule=lambda v, s, pv: gt(v[0], v[1]), margin=lambda v, s, pv: abs(v[0] - v[1]))
-reg('Envelope', cfg=lambda r, h: ([r.choice([0, 1]), P(r, h)], [r.choice([0.0, 5.0, 20.0, 2.5])]), default=([0, 20], [20.0]),
+reg('Envelope', cfg=lambda r, h: ([r.choice([0, 1]), P(r, h)], [r.choice([0.0, 5.0, 20.0, 2.5, 0.5, 0.25, 1.0, 0.99])]), default=([0, 20], [20.0]),
     idle=lambda ns: ns[1] - 1, inds=[('Envelope', lambda ns: ns, 'c')], pass_fs=True,
     rule=lambda v, s, pv: B if s['c'] < v[2] else (S if s['c'] > v[0] else H),
     margin=lambda v, s, pv: min(abs(s['c'] - v[2]), abs(s['c'] - v[0])))
@@ -119,11 +119,11 @@ reg('WeightedClose', cfg=lambda r, h: ([P(r, h)], []), default=([20], []), idle=
     rule=lambda v, s, pv: B if v[0] > v[1] else S, margin=lambda v, s, pv: abs(v[0] - v[1]))
 reg('AwesomeOscillator', cfg=lambda r, h: (list(two_sorted(r, h)), []), default=([5, 34], []), idle=lambda ns: ns[1] - 1,
     inds=[('AwesomeOscillator', lambda ns: ns, 'hl')], rule=lambda v, s, pv: sign(v[0]), margin=lambda v, s, pv: abs(v[0]))
-reg('Rsi', cfg=lambda r, h: ([P(r, h)], r.choice([[30.0, 70.0], [45.0, 55.0], [50.0, 50.0], [20.0, 80.0], [60.0, 40.0], [0.0, 100.0], [0.0, 55.0], [45.0, 0.0], [100.0, 0.0]])), default=([14], [30.0, 70.0]),
+reg('Rsi', cfg=lambda r, h: ([P(r, h)], r.choice([[30.0, 70.0], [45.0, 55.0], [50.0, 50.0], [20.0, 80.0], [60.0, 40.0], [0.0, 100.0], [0.0, 55.0], [45.0, 0.0], [100.0, 0.0], [-1.0, 101.0], [30.0, 101.0], [-1.0, 70.0], [100.0, 101.0], [-5.0, 0.0]])), default=([14], [30.0, 70.0]),
     idle=lambda ns: ns[0], inds=[('Rsi', lambda ns: ns, 'c')], uses_fs=True,
     rule=lambda v, s, pv, fs: B if v[0] <= fs[0] else (S if v[0] >= fs[1] else H),
     margin=lambda v, s, pv, fs: min(abs(v[0] - fs[0]), abs(v[0] - fs[1])))
-reg('StochasticRsi', cfg=lambda r, h: ([P(r, h)], r.choice([[0.8, 0.2], [0.2, 0.8], [0.4, 0.6], [0.5, 0.5], [0.1, 0.3], [0.0, 1.0], [0.0, 0.9], [0.1, 0.0], [1.0, 0.0]])), default=([14], [0.8, 0.2]),
+reg('StochasticRsi', cfg=lambda r, h: ([P(r, h)], r.choice([[0.8, 0.2], [0.2, 0.8], [0.4, 0.6], [0.5, 0.5], [0.1, 0.3], [0.0, 1.0], [0.0, 0.9], [0.1, 0.0], [1.0, 0.0], [-0.5, 1.5], [0.2, 1.01], [-0.01, 0.8], [1.0, 1.5]])), default=([14], [0.8, 0.2]),
     idle=lambda ns: 2 * ns[0] - 1, inds=[('StochasticRsi', lambda ns: ns, 'c')], uses_fs=True,
     rule=lambda v, s, pv, fs: B if v[0] <= fs[0] else (S if v[0] >= fs[1] else H),
     margin=lambda v, s, pv, fs: min(abs(v[0] - fs[0]), abs(v[0] - fs[1])))
@@ -140,7 +140,7 @@ reg('EaseOfMovement', cfg=lambda r, h: ([P(r, h)], []), default=([14], []), idle
     inds=[('Emv', lambda ns: ns, 'hlv')], rule=lambda v, s, pv: sign(v[0]), margin=lambda v, s, pv: abs(v[0]))
 reg('ForceIndex', cfg=lambda r, h: ([P(r, h)], []), default=([13], []), idle=lambda ns: ns[0],
     inds=[('Fi', lambda ns: ns, 'cv')], rule=lambda v, s, pv: sign(v[0]), margin=lambda v, s, pv: abs(v[0]))
-reg('MoneyFlowIndex', cfg=lambda r, h: ([P(r, h)], r.choice([[80.0, 20.0], [55.0, 45.0], [50.0, 50.0], [60.0, 40.0], [30.0, 70.0], [100.0, 0.0], [0.0, 45.0], [55.0, 0.0], [0.0, 100.0]])), default=([14], [80.0, 20.0]),
+reg('MoneyFlowIndex', cfg=lambda r, h: ([P(r, h)], r.choice([[80.0, 20.0], [55.0, 45.0], [50.0, 50.0], [60.0, 40.0], [30.0, 70.0], [100.0, 0.0], [0.0, 45.0], [55.0, 0.0], [0.0, 100.0], [101.0, -1.0], [80.0, -1.0], [101.0, 20.0]])), default=([14], [80.0, 20.0]),
     idle=lambda ns: ns[0], inds=[('Mfi', lambda ns: ns, 'hlcv')], uses_fs=True,
     rule=lambda v, s, pv, fs: S if v[0] >= fs[0] else (B if v[0] <= fs[1] else H),
     margin=lambda v, s, pv, fs: min(abs(v[0] - fs[0]), abs(v[0] - fs[1])))
@@ -180,7 +180,7 @@ def _triple_rsi_margin(at, snap, fs, ns):
 
 
 reg('TripleRsi', cfg=lambda r, h: ((lambda p, sp: [p, max(sp, p + 1), 1 + r.randrange(0, 4)])(P(r, 6), P(r, h)),
-                                    [r.choice([60.0, 70.0]), r.choice([30.0, 40.0]), r.choice([50.0, 60.0])]),
+                                    [r.choice([60.0, 70.0, 10.0, 35.0]), r.choice([30.0, 40.0, 55.0]), r.choice([50.0, 60.0, 20.0])]),
     default=([5, 200, 3], [60.0, 30.0, 50.0]), idle=lambda ns: ns[1] - 1,
     inds=[('Rsi', lambda ns: [ns[0]], 'c'), ('Sma', lambda ns: [ns[1]], 'c')],
     hist=lambda ns: ns[2], rule=_triple_rsi, margin=_triple_rsi_margin)
